@@ -123,6 +123,14 @@ func configs(tierName string, r *core.Rand) []Config {
 		}
 		c.TCP = i%5 == 4
 		c.Ages = i%4 == 3 // generous session / context ages: the deadline code paths run, no deadline can expire
+		if *lean && i%3 == 1 {
+			// race runs: the heartbeat plug-ins keep their per-session record up to date on every message, from whichever
+			// goroutine uses the session (no idle window needed for that)
+			c.Beat = []string{"call", "push"}[(i/3)%2]
+			if !p.Push {
+				c.Beat = "call"
+			}
+		}
 		if !*lean && i%16 == 5 {
 			c.Beat = []string{"call", "push"}[(i/16)%2] // one configuration in sixteen (4 in the quick tier), ~7 s each
 			if !p.Push {
@@ -493,7 +501,7 @@ func runCase(id string, cfg Config, r *core.Rand) {
 			return cfg.Kinds[gr.Intn(len(cfg.Kinds))], fmt.Sprintf("%s.%s%d.%d.%d", nonce, side, si, gi, ctr)
 		}
 		for op := 0; op < cfg.N; op++ {
-			if cfg.Beat != "" && op == cfg.N/2 {
+			if cfg.Beat != "" && op == cfg.N/2 && !*lean {
 				// every traffic goroutine pauses here: the sessions fall idle and the heartbeat pings travel
 				// (the ping loop wakes every 3 s and pings sessions idle for 3 s: an idle window of 6 s always sees one;
 				// the goroutines resume at different times, so user messages and pings also overlap)
